@@ -473,7 +473,9 @@ def next_statement(state: TokenizerState, readline: Callable[[], str]) -> Genera
     if state.pos == state.max:
         return False  # break parent loop
 
-    if state.line[state.pos] in "#\r\n":  # skip comments or blank lines
+    # skip comments or blank lines; stray carriage returns in front of the comment or line end change nothing, but a line
+    # that holds code after them is not blank
+    if state.line[state.pos :].lstrip("\r \t\f")[:1] in ("", "#", "\n"):
         if state.line[state.pos] == "#":
             comment_token = state.line[state.pos :].rstrip("\r\n")
             yield TokenInfo(
